@@ -37,6 +37,9 @@ class Outcome:
         if s is None or not isinstance(s.key, FuncV):
             return []
         nested = {d.name: d for d in ast.walk(self.f.node) if isinstance(d, ast.FunctionDef) and d is not self.f.node}
+        for d in self.f.module.tree.body:
+            if isinstance(d, ast.FunctionDef) and not d.name.startswith("sort_"):
+                nested.setdefault(d.name, d)   # module-level helpers count like nested ones
         out, todo = [], [s.key.node]
         while todo:
             n = todo.pop()
@@ -60,6 +63,7 @@ class Outcome:
         if s is None or not isinstance(s.key, FuncV):
             return None, None
         env = s.env
+        modfuncs = {d.name: d for d in self.f.module.tree.body if isinstance(d, ast.FunctionDef) and not d.name.startswith("sort_")}
 
         def body_of(fn_node):
             """-> (params, return expression with the def's local single assignments substituted) or None"""
@@ -91,6 +95,8 @@ class Outcome:
                 def visit_Call(self, c):
                     c = self.generic_visit(c)
                     fv = env.get(c.func.id) if isinstance(c.func, ast.Name) else None
+                    if fv is None and isinstance(c.func, ast.Name) and c.func.id in modfuncs:
+                        fv = FuncV(modfuncs[c.func.id])   # a module-level helper of the sort functions
                     if isinstance(fv, FuncV) and depth < 5 and not c.keywords:
                         b = body_of(fv.node)
                         if b is not None and len(b[0]) == len(c.args):
